@@ -15,7 +15,7 @@ type Sort string
 const (
 	SBool Sort = "Bool"
 	SInt  Sort = "Int"
-	SStr  Sort = "Str"  // (mkstr sarr soff slen)
+	SStr  Sort = "Str"  // (mkstr sarr slen): strings always start at index 0 of their array; slicing shifts the array (shl)
 	SSlc  Sort = "Slc"  // (mkslc sbase soff slen scap)
 	SIfc  Sort = "Ifc"  // (mkifc itag iptr)
 	SArrI Sort = "(Array Int Int)"
@@ -74,7 +74,8 @@ type Term struct {
 	S    Sort
 	// binder info for quantifiers
 	Bound []*Term // bound variables (Op == "forall"/"exists")
-	Pats  []*Term // optional :pattern
+	Pats  []*Term // optional :pattern (one multi-pattern)
+	AltPats [][]*Term // further alternative patterns
 	lit   *big.Int
 	str   string // cached printing
 }
@@ -117,14 +118,17 @@ func (t *Term) write(sb *strings.Builder) {
 		if len(t.Pats) > 0 {
 			sb.WriteString("(! ")
 			t.Args[0].write(sb)
-			sb.WriteString(" :pattern (")
-			for i, p := range t.Pats {
-				if i > 0 {
-					sb.WriteString(" ")
+			for _, ps := range append([][]*Term{t.Pats}, t.AltPats...) {
+				sb.WriteString(" :pattern (")
+				for i, p := range ps {
+					if i > 0 {
+						sb.WriteString(" ")
+					}
+					p.write(sb)
 				}
-				p.write(sb)
+				sb.WriteString(")")
 			}
-			sb.WriteString("))")
+			sb.WriteString(")")
 		} else {
 			t.Args[0].write(sb)
 		}
@@ -425,17 +429,42 @@ func Mod(a, b *Term) *Term {
 	return App("mod", SInt, a, b)
 }
 
+// nameDefs maps fresh names introduced by Ctx.Name to their definitions, so
+// that simplification can look through them (reset per verification unit).
+var nameDefs = map[string]*Term{}
+
+func lookThrough(a *Term) *Term {
+	for len(a.Args) == 0 && a.lit == nil {
+		d, ok := nameDefs[a.Op]
+		if !ok {
+			break
+		}
+		a = d
+	}
+	return a
+}
+
 func Select(a, i *Term) *Term {
+	orig := a
+	a = lookThrough(a)
+	if a.Op == "shl" {
+		return Select(a.Args[0], Add(a.Args[1], i))
+	}
 	// select over store with syntactically decidable indices
+	hit := false
 	for a.Op == "store" {
 		if same(a.Args[1], i) {
 			return a.Args[2]
 		}
 		if a.Args[1].lit != nil && i.lit != nil {
-			a = a.Args[0]
+			a = lookThrough(a.Args[0])
+			hit = true
 			continue
 		}
 		break
+	}
+	if !hit {
+		a = orig
 	}
 	return App("select", a.S.elemSort(), a, i)
 }
@@ -479,7 +508,7 @@ func declareDatatype(s Sort, ctor string, sels []string, sorts []Sort) *dtDecl {
 }
 
 func init() {
-	declareDatatype(SStr, "mkstr", []string{"sarr", "soff", "slen"}, []Sort{SArrI, SInt, SInt})
+	declareDatatype(SStr, "mkstr", []string{"sarr", "slen"}, []Sort{SArrI, SInt})
 	declareDatatype(SSlc, "mkslc", []string{"sbase", "soffs", "slenn", "scap"}, []Sort{SInt, SInt, SInt, SInt})
 	declareDatatype(SIfc, "mkifc", []string{"itag", "iptr"}, []Sort{SInt, SInt})
 	NilIfc = MkIfc(IntLit(0), IntLit(0))
@@ -524,11 +553,21 @@ func Ctor(ctor string, args ...*Term) *Term {
 
 // Strings ---------------------------------------------------------------
 
-func MkStr(arr, off, ln *Term) *Term { return Ctor("mkstr", arr, off, ln) }
+func MkStr(arr, ln *Term) *Term { return Ctor("mkstr", arr, ln) }
+
+// Shl shifts an array: Shl(a, o)[k] == a[o+k] (axiomatised in every query).
+func Shl(arr, off *Term) *Term {
+	if off.lit != nil && off.lit.Sign() == 0 {
+		return arr
+	}
+	if arr.Op == "shl" {
+		return Shl(arr.Args[0], Add(arr.Args[1], off))
+	}
+	return App("shl", SArrI, arr, off)
+}
 func StrArr(s *Term) *Term            { return Sel("sarr", s) }
-func StrOff(s *Term) *Term            { return Sel("soff", s) }
 func StrLen(s *Term) *Term            { return Sel("slen", s) }
-func StrAt(s, i *Term) *Term          { return Select(StrArr(s), Add(StrOff(s), i)) }
+func StrAt(s, i *Term) *Term          { return Select(StrArr(s), i) }
 
 func MkSlc(base, off, ln, cp *Term) *Term { return Ctor("mkslc", base, off, ln, cp) }
 func SlcBase(s *Term) *Term                { return Sel("sbase", s) }
@@ -589,7 +628,15 @@ func subst(t *Term, m map[string]*Term) *Term {
 		for _, p := range t.Pats {
 			np = append(np, subst(p, m2))
 		}
-		return &Term{Op: t.Op, S: SBool, Bound: t.Bound, Args: []*Term{nb}, Pats: np}
+		var nap [][]*Term
+		for _, ps := range t.AltPats {
+			var x []*Term
+			for _, p := range ps {
+				x = append(x, subst(p, m2))
+			}
+			nap = append(nap, x)
+		}
+		return &Term{Op: t.Op, S: SBool, Bound: t.Bound, Args: []*Term{nb}, Pats: np, AltPats: nap}
 	}
 	changed := false
 	args := make([]*Term, len(t.Args))
@@ -647,6 +694,8 @@ func rebuild(op string, s Sort, args []*Term) *Term {
 		return Mod(args[0], args[1])
 	case "select":
 		return Select(args[0], args[1])
+	case "shl":
+		return Shl(args[0], args[1])
 	}
 	if _, ok := selToCtor[op]; ok && len(args) == 1 {
 		return Sel(op, args[0])
@@ -663,6 +712,11 @@ func freeSyms(t *Term, out map[string]bool) {
 		freeSyms(t.Args[0], out)
 		for _, p := range t.Pats {
 			freeSyms(p, out)
+		}
+		for _, ps := range t.AltPats {
+			for _, p := range ps {
+				freeSyms(p, out)
+			}
 		}
 		return
 	}
